@@ -49,6 +49,10 @@ impl Peers {
     pub fn update_blocks_request(&self, index: PeerIndex, hashes: Option<Vec<Byte32>>) { unimplemented!() }
     #[verifier::external_body]
     pub fn mark_fetching_headers_timeout(&self, index: PeerIndex) ensures headers_rearmed(index) { unimplemented!() }
+    // GATE (C16): `self.inner.remove(&index)` - the peer's entry (with its pending requests, the only handle to re-arm the fetch
+    // entries it serves) is dropped only after they have been re-armed
+    #[verifier::external_body]
+    pub fn vf_remove_entry(&self, index: PeerIndex) requires headers_rearmed(index), txs_rearmed(index) { unimplemented!() }
     #[verifier::external_body]
     pub fn mark_fetching_txs_timeout(&self, index: PeerIndex) ensures txs_rearmed(index) { unimplemented!() }
     // GATE (C02): a matched block is flagged "proved" (=> its body will be accepted and indexed) only for proven headers
